@@ -92,6 +92,16 @@ impl Map {
         self.0.get_index_of(sample).map(Id)
     }
 
+    /// Returns true if some population has no samples, false otherwise.
+    ///
+    /// This happens when a sample is listed more than once with different populations: only the
+    /// last population given for a sample is used, which may leave an earlier population empty.
+    pub(crate) fn has_empty_population(&self) -> bool {
+        let population_sizes = self.population_sizes();
+
+        (0..population_sizes.len()).any(|id| !population_sizes.contains_key(&population::Id(id)))
+    }
+
     /// Returns true if no samples are defined, false otherwise.
     pub fn is_empty(&self) -> bool {
         self.0.is_empty()
